@@ -248,6 +248,10 @@ fn update_best_com(
     resolution: f64,
     directed: bool,
 ) {
+    // visit the neighbor communities in a fixed order: with a strict `>` the first of several
+    // equally good communities wins, so hash-map iteration order must not decide ties
+    let mut weights2com: Vec<(usize, f64)> = weights2com.into_iter().collect();
+    weights2com.sort_by_key(|(nbr_com, _)| *nbr_com);
     for (nbr_com, wt) in weights2com {
         let gain = match directed {
             true => {
